@@ -17,6 +17,7 @@ RULE = ("kinds: direct (random screen of single-sample plates built with the rea
         "mostly unreachable (batch, remaining) splits in shuffled order incl. several incomplete samples, over-full samples "
         "and multi-sample plates).  Non-trivial: at least one plate; distinct by canonical case description.")
 THEOREMS = {
+    "C16_model_is_source": "the hand-written model filter_eligible equals, for all inputs, the Gallina translation of the whole method filter_eligible_plates regenerated from /repo's current source on this run (Generated/SrcPolicy.v)",
     "C16_eligible_subset": "the eligible list is the remaining list filtered by a predicate (subset, order kept), for every state",
     "C16_in_progress_only": "reachable state with a sample at 1..k-1 plates in the batch: eligible = exactly the remaining plates of that sample, and non-empty",
     "C16_open_needs_k": "an eligible plate whose sample has no plate in the batch has >= k remaining plates of its sample (every state)",
@@ -34,7 +35,12 @@ ASSUMPTIONS = [
     "within a batch, unobserved plates do not become observed (the only change between two policy calls is the chosen plate moving to the batch)",
     "scores cross the wire as integers (integer-valued floats in the ChunkedScoresHolder)",
 ]
-EXPLANATION = ("Model: Model/Policy.v (filter_eligible with insertion-ordered association lists for the three containers, the "
+EXPLANATION = ("Tie to the code, two ways: (1) the whole method filter_eligible_plates is re-translated from /repo's current source on "
+               "every run (harness/py2gal.py, fail-closed: any construct outside its fragment, a changed parameter list or an undeclared "
+               "variable stops the build) and C16_model_is_source proves the hand-written model equal to the translation for all inputs - "
+               "trusted there: the translator (its rendering of for / if / raise / defaultdict / set into Lib/PyRt.v) and the two "
+               "attribute primitives Plate.n_unique_samples and Plate.sample_ids[0]; (2) the differential correspondence below, which also "
+               "exercises those primitives and select_next_plate.  Model: Model/Policy.v (filter_eligible with insertion-ordered association lists for the three containers, the "
                "argument construction of select_next_plate, first-minimum score selection).  The history relation used by the "
                "theorems lets the new plate be inserted anywhere in the batch and the remaining list be permuted, so it covers both "
                "the selection-order and the screen-order batch lists.  Modelled, not verified: numpy/pandas id encoding inside Screen, "
